@@ -86,7 +86,7 @@ AddRx == /\ pc = "rx" /\ Len(m.prog.rx) < MaxRx
                     m' = [m EXCEPT !.prog.rx = Append(@, Rx(sh, dl, named))]
             ELSE IF Mode = "exhrules"
             THEN m' = [m EXCEPT !.prog.rx = Append(@, Rx([re |-> <<1>>, pr |-> <<2>>, law |-> Mass(<<1>>, I(2))],
-                                                         [delay |-> NoDelay, dre |-> << >>, dpr |-> << >>], FALSE))]
+                                                         [delay |-> NoDelay, dre |-> << >>, dpr |-> << >>], TRUE))]
             ELSE \E named \in Pick(BOOLEAN), ty \in Pick(AllTypes), dt \in Pick({"none", "fixed", "gaussian", "gamma"}),
                     re \in Pick(SeqsUpTo(4)), pr \in Pick(SeqsUpTo(3)) :
                  \E law \in Pick(SimLaw(ty, re, named, r)), dd \in Pick(SimDelay(dt)),
@@ -104,23 +104,29 @@ Targets == {s \in Sp : ~OnSides(s)}
 Freqs == {RepeatF, [kind |-> "start", T |-> Zero], [kind |-> "dt", T |-> Zero],
           [kind |-> "time", T |-> I(2)], [kind |-> "time", T |-> R(1, 2)]}
 RuleKinds == {"additive", "additive1", "lin", "par"}
+\* a rule may also assign a named global parameter that a rate law reads: the rate constant k of a named reaction
+\* (its initial value is non-zero and is part of the model's meaning until / unless the rule fires)
+ParTargets == {PName("k", r) : r \in {q \in 1..Len(m.prog.rx) : m.prog.rx[q].named}}
+TargetSet == {[sp |-> s, par |-> ""] : s \in Targets} \cup {[sp |-> 0, par |-> n] : n \in ParTargets}
 MkRule(kind, tg, a, b, c, fq, j) ==
     LET sa == V(SpName(a))
         sb == V(SpName(b)) IN
-    [type |-> IF kind \in {"additive", "additive1"} THEN "additive" ELSE "assignment", target |-> tg,
+    [type |-> IF kind \in {"additive", "additive1"} THEN "additive" ELSE "assignment", target |-> tg.sp, tpar |-> tg.par,
      rhs |-> IF kind = "additive" THEN EAdd(sa, sb) ELSE IF kind = "additive1" THEN sa
              ELSE IF kind = "lin" THEN EAdd(EMul(N(c), sa), sb) ELSE EMul(V(RuleParName(j)), sa),
      freq |-> fq, haspar |-> kind = "par", pval |-> IF kind = "par" THEN c ELSE Zero]
 
 AddRule == /\ pc \in {"rx", "rules"} /\ Len(m.prog.rx) >= 1 /\ Len(m.rules) < MaxRules
-           /\ (Targets # {}) = TRUE
+           /\ (TargetSet # {}) = TRUE
            /\ IF Mode = "sim" THEN RandomElement(1..2) = 1 ELSE TRUE
            /\ LET j == Len(m.rules) + 1 IN
-              \E tg \in Pick(Targets), kind \in Pick(RuleKinds), fq \in Pick(Freqs) :
-              \E a \in (IF Mode = "sim" THEN Pick(Sp \ {tg}) ELSE {1}),
-                 b \in (IF Mode = "sim" THEN Pick(Sp \ {tg}) ELSE {2}),
+              \E tg \in Pick(TargetSet), kind \in Pick(RuleKinds), fq \in Pick(Freqs) :
+              \E a \in (IF Mode = "sim" THEN Pick(Sp \ {tg.sp}) ELSE {1}),
+                 b \in (IF Mode = "sim" THEN Pick(Sp \ {tg.sp}) ELSE {2}),
                  c \in (IF Mode = "sim" THEN Pick(KG) ELSE {I(3)}) :
-                 m' = [m EXCEPT !.rules = Append(@, MkRule(kind, tg, a, b, c, fq, j))]
+                 \* an additive rule sums species into a species; a parameter is assigned by a general rule
+                 LET kd == IF tg.par = "" THEN kind ELSE IF kind = "additive" THEN "lin" ELSE IF kind = "additive1" THEN "par" ELSE kind IN
+                 m' = [m EXCEPT !.rules = Append(@, MkRule(kd, tg, a, b, c, fq, j))]
            /\ pc' = "rules" /\ UNCHANGED <<P, XS>>
 
 Probes == [x : [Sp -> XG], V : VG]
@@ -151,8 +157,8 @@ Emit == pc = "done" =>
     LET am == ModelAM(m)
         rxs == m.prog.rx IN
     PrintT(ToJson([m |-> m, ns |-> NS, pars |-> AllPars(m), sem |-> Sem(am, P), P |-> P, XS |-> XS,
-                   kldet |-> [r \in 1..Len(rxs) |-> [i \in 1..Len(P) |-> Rate4(am.rx[r].law, P[i].x, One, am.gp)[1]]],
-                   klsto |-> [r \in 1..Len(rxs) |-> [i \in 1..Len(XS) |-> Rate4(am.rx[r].law, XS[i], One, am.gp)[2]]],
+                   kldet |-> [r \in 1..Len(rxs) |-> [i \in 1..Len(P) |-> RxRate4(am.rx[r], P[i].x, One, am.gp)[1]]],
+                   klsto |-> [r \in 1..Len(rxs) |-> [i \in 1..Len(XS) |-> RxRate4(am.rx[r], XS[i], One, am.gp)[2]]],
                    restoich |-> [r \in 1..Len(rxs) |-> [s \in Sp |-> Count(rxs[r].re, s)]],
                    prstoich |-> [r \in 1..Len(rxs) |-> [s \in Sp |-> Count(rxs[r].pr, s)]],
                    ruletimes |-> RuleTimes]))
